@@ -794,6 +794,24 @@ def gen_step(m: Machine, rng, uid):
         if op == "reduce_to_ids":
             k = rng.randint(1, n)
             ids = sorted(rng.sample(range(n), k))
+            # any list of valid indices is a legal argument: permuted and
+            # repeated ids (always for paths, sometimes for stamped objects,
+            # whose time stamps then stop being ascending - evo's check()
+            # must say so)
+            if rng.random() < (0.35 if not e.stamped else 0.08):
+                shape = rng.choice(["permute", "repeat", "swap", "reverse"])
+                if shape == "permute":
+                    rng.shuffle(ids)
+                elif shape == "repeat":
+                    ids = sorted(ids + [rng.choice(ids)
+                                        for _ in range(rng.randint(1, 3))])
+                    if rng.random() < 0.5:
+                        rng.shuffle(ids)
+                elif shape == "swap" and len(ids) >= 3:
+                    i = rng.randrange(1, len(ids) - 1)
+                    ids[i], ids[i - 1] = ids[i - 1], ids[i]
+                else:
+                    ids = ids[::-1]
             return {"op": op, "uid": uid, "obj": e.uid, "ids": ids,
                     "ids_np": rng.random() < 0.5}
         if op == "downsample":
